@@ -138,22 +138,20 @@ Definition c06_stable_plen_ok (cfg : vconfig) (l : list fstep) : bool := stable_
 
 (* the joint invariant of ring and table, observably: bytes accepted from the writer minus bytes
    still in the ring = bytes the table has dropped as acknowledged.  Evaluated after every Pending
-   poll until the inbox is closed (finding T1: the closing poll skips truncate_front). *)
+   poll of the trace, the polls after the inbox was closed included: since the repair of D17
+   (finding T1) the poll that sees the closed channel runs truncate_front like any other
+   (Conn/C06_RecProofs.v joint_inv_process_all). *)
 Fixpoint joint_trace (written : Z) (l : list fstep) : bool :=
   match l with
   | [] => true
   | st :: r =>
-      match fs_event st with
-      | FeCloseInbox => true
-      | _ =>
-          let written' := match fs_result st with FrWrite (WrOk n) => written + n | _ => written end in
-          (match fs_result st with
-           | FrPoll PollPending _ _ _ =>
-               (f_seg_removed (fs_post st) =? written' - f_tx_len (fs_post st)) &&
-               (f_seg_len_bytes (fs_post st) <=? f_tx_len (fs_post st))
-           | _ => true
-           end) && joint_trace written' r
-      end
+      let written' := match fs_result st with FrWrite (WrOk n) => written + n | _ => written end in
+      (match fs_result st with
+       | FrPoll PollPending _ _ _ =>
+           (f_seg_removed (fs_post st) =? written' - f_tx_len (fs_post st)) &&
+           (f_seg_len_bytes (fs_post st) <=? f_tx_len (fs_post st))
+       | _ => true
+       end) && joint_trace written' r
   end.
 
 Definition c06_joint_ok (cfg : vconfig) (l : list fstep) : bool := joint_trace 0 l.
